@@ -68,8 +68,9 @@ def parseBody (mode k src : String) (grp : Task → Task) : Option (Bool × Nat 
   | [needs, e] =>
     match k.toNat?, parseNeeds needs, e.toNat? with
     | some k, some ns, some e =>
-      if mode == "a" then some (false, k, init (ns.zipIdx) e grp)
-      else if mode == "s" then some (true, k, init ((ns.map fun _ => 0).zipIdx) 0 grp)
+      -- upper-case modes: the harness gives bundles 2i and 2i+1 the same locale; the cache does not look at locales
+      if mode == "a" || mode == "A" then some (false, k, init (ns.zipIdx) e grp)
+      else if mode == "s" || mode == "S" then some (true, k, init ((ns.map fun _ => 0).zipIdx) 0 grp)
       else none
     | _, _, _ => none
   | _ => none
